@@ -91,9 +91,27 @@ func Verif_C11_SaveThenRestartOrLoad() {
 				u.IncludedReadKeys = []string{"zzz"}
 			}
 		}
+		// a connection that is already bound to alice when the file is loaded
+		conn := newConn()
+		a2.RegisterConnection(conn)
+		for _, u := range a2.Users {
+			if u.Username == "alice" {
+				a2.Connections[conn] = Connection{Authenticated: true, User: u}
+			}
+		}
 		_, lerr := c11Handler(a2, "ACL", "load", "replace")
 		vr.Assert(lerr == nil, "C11.load.replies_ok")
 		vr.Assert(c11SameUsers(a.Users, a2.Users), "C11.save.load_replace_reproduces_users_and_rules")
+		// the loaded rules govern every later decision, also for that connection: it is bound to the
+		// user that is in the table now, not to a copy that was left behind
+		bound := a2.Connections[conn].User
+		inTable := false
+		for _, u := range a2.Users {
+			if u == bound {
+				inTable = true
+			}
+		}
+		vr.Assert(inTable && bound != nil && bound.Username == "alice", "C11.load.bound_connections_follow_the_loaded_user")
 	case 2: // saving twice and restarting is the same as saving once
 		_, err2 := c11Handler(a, "ACL", "save")
 		b := NewACL(cfg)
